@@ -144,7 +144,9 @@ func main() {
 	binpw := "p:\nw\x00\xff\xfe:z"
 	long := strings.Repeat("0123456789", 7)
 	// (the last ones end or start with bytes an implementation might be tempted to strip)
-	pws := []string{"", "x", long, binpw, "correct horse", "line\n", "crlf\r\n", "nul\x00", " lead and trail ", "\n", "\ttab"}
+	pws := []string{"", "x", long, binpw, "correct horse", "line\n", "crlf\r\n", "nul\x00", " lead and trail ", "\n", "\ttab",
+		// lengths around the limits of the transports and of typical buffers: the library itself has none
+		strings.Repeat("k", 64), strings.Repeat("k", 65), strings.Repeat("k", 255), strings.Repeat("k", 256), strings.Repeat("k", 257), strings.Repeat("q", 1000), strings.Repeat("z", 4097), strings.Repeat("L", 70000)}
 	writes := 6
 	if ev.Thorough() {
 		writes = 60
